@@ -23,7 +23,7 @@ READY = True
 DRIVER = "dm_token"
 LEAN_MODULES = ["DaskModel.Props.C11", "DaskModel.Props.C11Cache"]
 TABLES = ["TaskSpecIdentity"]
-CASE_TIMEOUT_S = 20
+CASE_TIMEOUT_S = 90
 LEVEL_TEXT = ("Lean proof: for task-spec nodes (Alias, DataNode, Task with args/kwargs, List/Tuple/Set/Dict containers, "
               "TaskRef and literal arguments, nested arbitrarily) equality of the normal forms fed to tokenize implies "
               "equal evaluation on every environment, over any value algebra in which sets ignore element order and dicts "
